@@ -963,6 +963,39 @@ func ruleEllipsisCallSlice(c *Ctx, rule string) {
 			return true
 		})
 	}
+	// statements that obtain a Call themselves (go, defer) and invoke the function value directly, outside the
+	// call_* dispatch, must look at Call.Ellipsis too and have a CallSlice for it
+	for _, fd := range c.P.FuncsOf("fast") {
+		if fd.Body == nil {
+			continue
+		}
+		obtains := false
+		inspectCalls(fd.Body, func(call *ast.CallExpr) {
+			if funcFullName(calleeOf(info, call)) == "fast.Comp.prepareCall" {
+				obtains = true
+			}
+		})
+		if !obtains {
+			continue
+		}
+		s, p, fp, _ := count(fd.Body, 0, map[*ast.FuncDecl]bool{})
+		if s == 0 && p == 0 {
+			continue // leaves the invocation to the call_* dispatch
+		}
+		reads := false
+		ast.Inspect(fd.Body, func(m ast.Node) bool {
+			if se, ok := m.(*ast.SelectorExpr); ok && fieldOfStruct(info, se, "fast", "Call") == "Ellipsis" {
+				reads = true
+			}
+			return true
+		})
+		n++
+		var at ast.Node = fd
+		if fp != nil {
+			at = fp
+		}
+		c.Ob(rule, funcKey(pk, fd)+"/direct", at, reads && s > 0 && p > 0, fmt.Sprintf("the statement invokes the function value itself: it reads Call.Ellipsis (%v) and has both a CallSlice (%d) and a Call (%d)", reads, s, p))
+	}
 	if n < 4 {
 		c.Ob(rule, "fast/ellipsis-tests", nil, false, fmt.Sprintf("%d tests of Call.Ellipsis found, at least 4 expected", n))
 	}
@@ -1590,4 +1623,145 @@ func ruleDeadBranchTruncate(c *Ctx, rule string) {
 func isBoolType(t types.Type) bool {
 	b, ok := t.Underlying().(*types.Basic)
 	return ok && b.Info()&types.IsBoolean != 0
+}
+
+// ruleSendValueConversion (S5): the value of a send statement is converted to the channel's element type the way
+// an assignment would: a constant (an untyped constant, or nil) takes the element type with ConstTo, anything else
+// must be assignable. Every function that compiles the Value of an *ast.SendStmt -- the send statement and the send
+// case of select -- tests Const() on the compiled expression and calls ConstTo on it.
+func ruleSendValueConversion(c *Ctx, rule string) {
+	pk := c.P.Pkg("fast")
+	if pk == nil {
+		c.Fatal("package fast not loaded")
+		return
+	}
+	info := pk.TypesInfo
+	n := 0
+	for _, fd := range c.P.FuncsOf("fast") {
+		if fd.Body == nil {
+			continue
+		}
+		ast.Inspect(fd.Body, func(nd ast.Node) bool {
+			as, ok := nd.(*ast.AssignStmt)
+			if !ok || len(as.Lhs) != 1 || len(as.Rhs) != 1 {
+				return true
+			}
+			call, ok := unparen(as.Rhs[0]).(*ast.CallExpr)
+			if !ok || len(call.Args) == 0 {
+				return true
+			}
+			fn := calleeOf(info, call)
+			if fn == nil || !isNamedType(fn.Type().(*types.Signature).Results().At(0).Type(), "fast", "Expr") {
+				return true
+			}
+			se, ok := unparen(call.Args[0]).(*ast.SelectorExpr)
+			if !ok || se.Sel.Name != "Value" {
+				return true
+			}
+			if t := info.TypeOf(se.X); t == nil || t.String() != "*go/ast.SendStmt" {
+				return true
+			}
+			id, ok := as.Lhs[0].(*ast.Ident)
+			if !ok {
+				return true
+			}
+			obj := info.ObjectOf(id)
+			n++
+			hasConst, hasConstTo := false, false
+			inspectCalls(fd.Body, func(c2 *ast.CallExpr) {
+				s2, ok := unparen(c2.Fun).(*ast.SelectorExpr)
+				if !ok {
+					return
+				}
+				rid, ok := unparen(s2.X).(*ast.Ident)
+				if !ok || info.Uses[rid] != obj {
+					return
+				}
+				switch s2.Sel.Name {
+				case "Const":
+					hasConst = true
+				case "ConstTo":
+					hasConstTo = true
+				}
+			})
+			c.Ob(rule, funcKey(pk, fd)+"/"+id.Name, as, hasConst && hasConstTo, fmt.Sprintf("the compiled value of the send is tested with Const() (%v) and a constant is given the element type with ConstTo (%v)", hasConst, hasConstTo))
+			return true
+		})
+	}
+	if n < 2 {
+		c.Ob(rule, "fast/send-values", nil, false, fmt.Sprintf("%d functions compile the value of a send statement, at least 2 expected (send statement, select case)", n))
+	}
+}
+
+// ruleConstantNilValue (N7): reflect.ValueOf(nil) is the invalid Value. A Value built from a constant's value
+// (`v := xr.ValueOf(expr.Value)`) that is later handed to reflect as an argument (Send, Set, SetMapIndex, Append...)
+// must have been tested with IsValid in the same function: the constant may be nil.
+func ruleConstantNilValue(c *Ctx, rule string, files []string) {
+	pk := c.P.Pkg("fast")
+	if pk == nil {
+		c.Fatal("package fast not loaded")
+		return
+	}
+	info := pk.TypesInfo
+	want := map[string]bool{}
+	for _, f := range files {
+		want[f] = true
+	}
+	n := 0
+	for _, fd := range c.P.FuncsOf("fast") {
+		if fd.Body == nil || (len(want) > 0 && !want[baseName(pk.Fset, fd)]) {
+			continue
+		}
+		ast.Inspect(fd.Body, func(nd ast.Node) bool {
+			as, ok := nd.(*ast.AssignStmt)
+			if !ok || as.Tok != token.DEFINE || len(as.Lhs) != 1 || len(as.Rhs) != 1 {
+				return true
+			}
+			call, ok := unparen(as.Rhs[0]).(*ast.CallExpr)
+			if !ok || len(call.Args) != 1 || funcFullName(calleeOf(info, call)) != "xreflect.ValueOf" {
+				return true
+			}
+			se, ok := unparen(call.Args[0]).(*ast.SelectorExpr)
+			if !ok || se.Sel.Name != "Value" || !isNamedType(info.TypeOf(se.X), "fast", "Expr") {
+				return true
+			}
+			id, ok := as.Lhs[0].(*ast.Ident)
+			if !ok {
+				return true
+			}
+			obj := info.Defs[id]
+			asArg, tested := false, false
+			var where ast.Node
+			inspectCalls(fd.Body, func(c2 *ast.CallExpr) {
+				if s2, ok := unparen(c2.Fun).(*ast.SelectorExpr); ok {
+					if rid, ok := unparen(s2.X).(*ast.Ident); ok && info.Uses[rid] == obj && s2.Sel.Name == "IsValid" {
+						tested = true
+					}
+					if !isNamedType(info.TypeOf(s2.X), "xreflect", "Value") && !isNamedType(info.TypeOf(s2.X), "reflect", "Value") {
+						return
+					}
+				} else {
+					return
+				}
+				for _, a := range c2.Args {
+					if aid, ok := unparen(a).(*ast.Ident); ok && info.Uses[aid] == obj {
+						asArg = true
+						if where == nil {
+							where = c2
+						}
+					}
+				}
+			})
+			if !asArg {
+				return true
+			}
+			n++
+			c.Ob(rule, funcKey(pk, fd)+"/"+id.Name, where, tested, "the Value of a constant is handed to reflect as an argument: the function tests it with IsValid (a constant nil gives the invalid Value)")
+			return true
+		})
+	}
+	c.Extra(rule+"_sites", n)
+	if n < 1 {
+		c.Ob(rule, "fast/constant-values", nil, false, "no constant Value handed to reflect found, at least 1 expected (Comp.Send)")
+	}
 }
